@@ -267,19 +267,21 @@ def run_property(pid, tier, seed):
                 replay_paths.append(path)
                 bounded['found'] = key
                 break
-    # 4c. thorough tier: the replay enumerators run on the (unchanged) real code as a bounded cross-check of the
-    # trusted stubs; a failing input found here is a demonstrated violation
+    # 4c. bounded checks (every tier): the replay enumerators run on the real code.  They stand in, labelled bounded
+    # and never counted as proved, for the functions of this property that the verifier cannot reach (listed under
+    # not_covered), and cross-check the trusted stubs; a failing input found here is a demonstrated violation.
+    # quick: one enumerator seed; thorough: five.
     crosscheck = None
-    if tier == 'thorough' and spec.get('replay') and not violations and bounded is None:
+    if spec.get('replay') and not violations and bounded is None and not os.environ.get('VERIF_NO_BOUNDED'):
         rp = spec['replay']
         keys = sorted(set(rp.values())) if isinstance(rp, dict) else [rp]
-        crosscheck = {'bounds': {k: props.REPLAY_BOUNDS.get(k, '') for k in keys}}
+        crosscheck = {'label': 'bounded: NOT counted in obligations/discharged', 'bounds': {k: props.REPLAY_BOUNDS.get(k, '') for k in keys}}
         for key in keys:
             cex, logs = None, []
             # five enumerator runs with seeds derived from VERIF_SEED (the random part of every enumerator is seeded)
-            for rs in [seed * 31 + k * 7919 + 1 for k in range(5)]:
+            for rs in [seed * 31 + k * 7919 + 1 for k in range(5 if tier == 'thorough' else 1)]:
                 try:
-                    cex, slog = run_replay_search(key, {'name': 'bounded-crosscheck', 'function': 'prop:' + pid}, rs)
+                    cex, slog = run_replay_search(key, {'name': 'bounded-check', 'function': 'prop:' + pid}, rs)
                 except Exception as e:
                     cex, slog = None, 'replay search failed to run: %r' % (e,)
                 logs.append('seed %d: %s' % (rs, slog.strip().split('\n')[-1][:160] if slog else ''))
@@ -287,9 +289,9 @@ def run_property(pid, tier, seed):
                     break
             crosscheck[key] = logs
             if cex:
-                f = {'name': 'bounded-crosscheck::%s' % key, 'unit': 'replay', 'function': key, 'kind': 'bounded cross-check on the real code', 'clause': None, 'site': None,
-                     'rendered': 'the replay enumerator found a failing input on the real code although every obligation was discharged: a trusted stub or an extraction rule misrepresents the code', 'property': pid}
-                path = os.path.join(BUILD, 'replay', '%s-bounded-crosscheck-%s.json' % (pid, key))
+                f = {'name': 'bounded-check::%s' % key, 'unit': 'replay', 'function': key, 'kind': 'bounded check on the real code', 'clause': None, 'site': None,
+                     'rendered': 'the replay enumerator found a failing input on the real code although every proof obligation was discharged: the failing function is outside the functions under contract (see not_covered), or a trusted stub misrepresents the code', 'property': pid}
+                path = os.path.join(BUILD, 'replay', '%s-bounded-check-%s.json' % (pid, key))
                 with open(path, 'w') as fo:
                     json.dump({'property': pid, 'obligation': f['name'], 'kind': f['kind'], 'verifier_output': f['rendered'], 'failing_input': cex,
                                'how_to_rerun': './check %s --replay %s' % (pid, path), 'label': 'bounded (not a proof obligation)'}, fo, indent=1)
@@ -315,7 +317,7 @@ def run_property(pid, tier, seed):
             'known_findings_hit': [f['name'] for f, _ in known_hits],
             'inconclusive': inconclusive,
             'bounded_standin': bounded,
-            'bounded_crosscheck': crosscheck,
+            'bounded_checks': crosscheck,
             'obligation_counting_rule': 'per extracted function: ensures clauses + 2 x loop-invariant clauses + decreases clauses + 1 (body safety: panics, overflow, bounds, callee preconditions); per template lemma: 1; per Kani harness: number of CBMC checks reported',
             'explanation': spec.get('explanation', ''),
         },
